@@ -210,8 +210,43 @@ func c05Fallback(t *testing.T, o *vOut, ca *vCA) {
 	})
 }
 
+// "Managing a name loads its certificate when a usable one exists, obtains one only when none
+// exists": a name is managed in its own right also when a managed WILDCARD certificate happens
+// to cover it (listing both is how one gets a dedicated certificate for the host).
+func c05WildcardAndHost(t *testing.T, o *vOut, ca *vCA) {
+	for _, order := range [][]string{{"*.wm.example", "www.wm.example"}, {"www.wm.example", "*.wm.example"}} {
+		synctest.Test(t, func(t *testing.T) {
+			st := vNewMem()
+			iss := vNewIssuer("c05ca", ca)
+			cache, cfg := vNewCfg(st, []Issuer{iss}, func(c *Config, co *CacheOptions) {
+				co.RenewCheckInterval = 100 * 365 * 24 * time.Hour
+				co.OCSPCheckInterval = 100 * 365 * 24 * time.Hour
+			})
+			defer cache.Stop()
+			ctx := context.Background()
+			err := cfg.ManageSync(ctx, order)
+			replay := map[string]any{"names": order, "error": fmt.Sprint(err), "issuer_calls": len(iss.Calls())}
+			for _, name := range order {
+				stored := cfg.storageHasCertResourcesAnyIssuer(ctx, name)
+				own := false
+				for _, c := range cache.getAllMatchingCerts(name) {
+					if c.managed && len(c.Names) > 0 && c.Names[0] == name {
+						own = true
+					}
+				}
+				if !stored || !own {
+					replay["name"], replay["stored"], replay["managed_in_cache"] = name, stored, own
+					o.Mon("C05 manage listed-name-not-managed", replay)
+				}
+			}
+			o.Stat("wildcard_and_host_runs", 1)
+		})
+	}
+}
+
 func c05Overlaps(t *testing.T, o *vOut, ca *vCA) {
 	c05Fallback(t, o, ca)
+	c05WildcardAndHost(t, o, ca)
 	lats := []time.Duration{time.Second, 45 * time.Second, 20 * time.Minute}
 	for _, n := range []int{1, 3} {
 		for _, lat := range lats {
